@@ -87,6 +87,13 @@ def closed_box(rep, prog, fn):
 
 
 def query_fresh(rep, prog, fn):
+    # a query does not change what is stored: it is a const member function (the compiler then rejects any write to the voxels)
+    if fn.get("const"):
+        rep.ok("C20.query-fresh", prog, fn, None, "%s is a const member function: it cannot modify the stored objects" % fn["qn"])
+    else:
+        writes = [x for x in walk(fn["body"]) if x.get("k") == "CXXMemberCallExpr" and not x.get("cconst") and "voxel_lst_" in render(call_obj(x) or {})]
+        rep.violation("C20.query-fresh", prog, fn, writes[0] if writes else None, "query is not const",
+                      "%s is no longer a const member function%s: a query that moves / removes what it returns leaves the grid empty (or partly empty) for every later look-up - objects placed earlier are not retrievable, neighbours are missed, a second content query returns nothing" % (fn["qn"], (" and calls the non-const %s on the voxel storage" % writes[0].get("callee", "?").split("::")[-1]) if writes else ""))
     rets = [r for r in walk(fn["body"], into_lambdas=False) if r.get("k") == "ReturnStmt" and isinstance(r.get("value"), dict)]
     for r in rets:
         v = strip(r["value"])
@@ -126,7 +133,10 @@ def flatten(rep, prog, fn):
             continue
         ev = S.SymEval(prog, fn, lazy_scalars=True)
         try:
-            v = sp.sympify(ev.ev(init))
+            v0 = ev.ev(init)
+            if not isinstance(v0, (sp.Basic, int, float)):
+                continue       # not a scalar (e.g. an object of the element type in a newly instantiated member)
+            v = sp.sympify(v0)
             for _ in range(4):
                 v2, ch = ev.expand_once(v)
                 if not ch:
